@@ -16,7 +16,7 @@ META = {
                   'number, no fraction truncated, strict base64, equal lengths) and idempotence (re-validation returns the value '
                   'unchanged).  The models of import_value / validate / __call__ are tied to frappy/datatypes.py by a correspondence run '
                   'on the real classes; the Lean monitors are `decide` of the specification Props themselves.',
-    'level_note': 'Trusted: Lean kernel + axioms propext/Classical.choice/Quot.sound; the 20 order / rounding laws of LawfulFloatOps '
+    'level_note': 'Trusted: Lean kernel + axioms propext/Classical.choice/Quot.sound; the 16 order / rounding laws of LawfulFloatOps '
                   'for binary64 (all proved for the exact carrier Rat).  lazy_number_validation stays False.  Strings with lone '
                   'surrogates are judged for totality only.  Previous values are values that validate accepts.',
     'trusted': [
